@@ -131,16 +131,16 @@ void default_knobs(void) {
 }
 void knobs_print(Buf *b) {
     buf_printf(b, "knob preempt_mean %d\nknob sched_policy %d\nknob pct_depth %d\nknob sock_cap %d\nknob pipe_cap %d\n"
-               "knob short_read_pm %d\nknob short_write_pm %d\nknob eintr_pm %d\nknob zombie_delay_us %d\nknob max_steps %llu\nknob max_blocks %llu\n",
+               "knob short_read_pm %d\nknob short_write_pm %d\nknob eintr_pm %d\nknob zombie_delay_us %d\nknob stack_mode %d\nknob max_steps %llu\nknob max_blocks %llu\n",
                K.preempt_mean, K.sched_policy, K.pct_depth, K.sock_cap, K.pipe_cap, K.short_read_pm, K.short_write_pm,
-               K.eintr_pm, K.zombie_delay_us, (unsigned long long)K.max_steps, (unsigned long long)K.max_blocks);
+               K.eintr_pm, K.zombie_delay_us, K.stack_mode, (unsigned long long)K.max_steps, (unsigned long long)K.max_blocks);
 }
 bool knobs_parse_line(const char *line) {
     char name[32]; long long v;
     if (sscanf(line, "knob %31s %lld", name, &v) != 2) return false;
 #define KN(f) if (strcmp(name, #f) == 0) { K.f = (__typeof__(K.f))v; return true; }
     KN(preempt_mean) KN(sched_policy) KN(pct_depth) KN(sock_cap) KN(pipe_cap) KN(short_read_pm) KN(short_write_pm)
-    KN(eintr_pm) KN(zombie_delay_us) KN(max_steps) KN(max_blocks)
+    KN(eintr_pm) KN(zombie_delay_us) KN(stack_mode) KN(max_steps) KN(max_blocks)
     return true;
 }
 
